@@ -1,34 +1,10 @@
 package durablestream
 
 import (
-	"context"
 	"time"
 
 	eventbus "github.com/jilio/ebu"
 )
-
-var bg = context.Background()
-
-type dsRec struct {
-	typ  string
-	data []byte
-	ts   time.Time
-}
-
-func dsFill(st *Store, n int) []dsRec {
-	recs := make([]dsRec, 0, n)
-	for i := 0; i < n; i++ {
-		r := dsRec{typ: vStr("type"), data: []byte{'0' + byte(i)}, ts: time.Unix(int64(1000+i), 0).UTC()}
-		_, err := st.Append(bg, &eventbus.Event{Type: r.typ, Data: r.data, Timestamp: r.ts})
-		vAssert(err == nil, "append-ok")
-		recs = append(recs, r)
-	}
-	return recs
-}
-
-func dsSame(e *eventbus.StoredEvent, r dsRec) bool {
-	return e.Type == r.typ && string(e.Data) == string(r.data) && e.Timestamp.Equal(r.ts)
-}
 
 //verif:entry property=C10 tier=both bounds="durable-streams store over the real client library and a model server (optionally cutting read responses short): log length n<=N, chain of R reads with limits in [-1,N+1], each resumed from the returned next offset; offsets returned by Append increase" cover="chain-done" conformance=off N_quick=3 N_thorough=4 R_quick=2 R_thorough=3
 func harnessC10DurableReadChain() {
